@@ -67,6 +67,8 @@ INDEX = {
  "C13": {"package": ".", "harnesses": [
    {"name": "VerifH13Mutex", "common": {"max_depth": 2000}, "quick": {"bounds": {"steps": 2, "ops": 3, "batch": 2}}, "thorough": {"bounds": {"steps": 2, "ops": 3, "batch": 3}}},
    {"name": "VerifH13Bool", "common": {"max_depth": 2000}, "quick": {"bounds": {"steps": 2, "ops": 3, "batch": 2}}},
+   {"name": "VerifH13Rounds", "common": {"max_depth": 3000}, "quick": {"bounds": {"rounds": 3, "roundcols": 5}}, "thorough": {"bounds": {"rounds": 4, "roundcols": 7}}},
+   {"name": "VerifH13BigBatch", "common": {"max_depth": 3000}, "quick": {"bounds": {"bigbatch": 16}}, "thorough": {"bounds": {"bigbatch": 24}}},
  ]},
  "C14": {"package": ".", "harnesses": [
    {"name": "VerifH14Value", "common": {"max_depth": 2000}, "quick": {"bounds": {"depths": 2, "cols": 1}}, "thorough": {"bounds": {"depths": 3, "cols": 2, "symbase": 1}}},
